@@ -1,5 +1,6 @@
 import NessaiVerif.Model.Batch
 import NessaiVerif.Proofs.Np
+import NessaiVerif.Gen.BatchTx
 /-
 C10 — batched, chunked and pooled evaluation equals pointwise evaluation, once.
 Property theorems only (helper lemmas live in Proofs/).
@@ -49,7 +50,7 @@ theorem calls_cover_once (vectorised : Bool) (chunk : Option Int) (pool : Bool)
     (nPool : Option Nat) (xs : List α) (calls : List (List α))
     (h : batchCalls vectorised chunk pool nPool xs = .ok calls) : calls.flatten = xs := by
   have hsingle : (xs.map fun x => [x]).flatten = xs := flatten_singletons xs
-  unfold batchCalls arraySplitChunksize at h
+  unfold batchCalls splitPool arraySplitChunksize at h
   split at h
   · split at h
     · split at h
@@ -126,13 +127,13 @@ theorem batchEval_total (F : List α → List β) (f : α → β)
     | none =>
       obtain ⟨n, hn, h1⟩ := hpool rfl rfl (Or.inl rfl)
       have : n ≠ 0 := by omega
-      simp [hn, this]
+      simp [splitPool, hn, this]
     | some c =>
       have := hchunk c rfl
       by_cases h0 : c = 0
       · obtain ⟨n, hn, h1⟩ := hpool rfl rfl (Or.inr (by simp [h0]))
         have : n ≠ 0 := by omega
-        simp [h0, hn, this]
+        simp [splitPool, h0, hn, this]
       · have : ¬ c < 1 := by omega
         simp [h0, this]
 
@@ -146,5 +147,21 @@ theorem counter_once (before : Nat) (xs : List α) :
 /-- non-vacuity: a concrete chunked, pooled evaluation meets the hypotheses and returns the map -/
 example : (batchEval (fun b => b.map (· + 1)) (· + 1) (fun g ys => ys.map g)
     true (some 2) true (some 3) [1, 2, 3, 4, 5]).toOption = some [2, 3, 4, 5, 6] := by decide +kernel
+
+/-! ## The dispatch tree of the source, regenerated on every run, IS the model's -/
+
+/-- `Gen.BatchTx.batchCallsTx` is generated by `harness/c10_tx.py` from the current text of `batch_evaluate_function`
+(its `if` tree and the way each leaf calls the user function).  For every input it hands the user function exactly the
+batches `batchCalls` says, and goes through `pool.map` exactly when a pool was given — so `calls_cover_once`,
+`batchEval_eq_map` and `batchEval_total` are theorems about the source as it is now. -/
+theorem batch_calls_source_eq_model (vectorised : Bool) (chunk : Option Int) (pool : Bool) (nPool : Option Nat) (xs : List α) :
+    Gen.BatchTx.batchCallsTx vectorised chunk (!pool) nPool xs =
+      tagCalls pool (batchCalls vectorised chunk pool nPool xs) := by
+  unfold Gen.BatchTx.batchCallsTx batchCalls
+  cases pool <;> cases vectorised <;> cases chunk <;> simp
+  all_goals (rename_i c; by_cases h : c = 0 <;> simp [h])
+
+example : Gen.BatchTx.batchCallsTx true (some 2) true none [1, 2, 3] = .ok (false, [[1, 2], [3]]) := by
+  simp [Gen.BatchTx.batchCallsTx, tagCalls, arraySplitChunksize, splitChunk]
 
 end NessaiVerif.C10
